@@ -107,6 +107,7 @@ func runProgram(p Program, backend int, prov Provider, out *Out) (po progOutcome
 			return po
 		}
 		ctx := NewCtx()
+		out.onCancel = func() { ctx.Fire("inside a host call") }
 		env := &vmEnv{prog: &compiled{an: a, out: co}, out: out, ctx: ctx, exec: NewVMExec(out), limits: generousLimits}
 		env.boot()
 		env.vm.SpawnAsync(runtime.MainFn(), nil, nil, nil)
@@ -115,6 +116,7 @@ func runProgram(p Program, backend int, prov Provider, out *Out) (po progOutcome
 		po.Outcome, po.Msg = o.Kind, o.Msg
 	} else {
 		ctx := NewCtx()
+		out.onCancel = func() { ctx.Fire("inside a host call") }
 		ctxp, _ := ctx.AsContext()
 		i := hms.Run(2000, a.Modules, p.Entry, TreeExec{Out: out}, hms.TestingInterpreterScopeAdditions(), ctxp)
 		o := classifyTree(i)
@@ -279,6 +281,38 @@ fn main() {
     println(s.lenn(), s.to_strin());
     let l = [1];
     println(l.puhs(2), l.lem());
+}`)},
+	{"print-loop-with-work", Single(`
+fn main() {
+    let total = 0;
+    for i in 0..60 {
+        println("line", i);
+        let a = 0;
+        for j in 0..(i % 7) { a = a + j; }
+        total = total + a;
+        print("t", total, "\n");
+    }
+    println("end", total);
+}`)},
+	{"lexical-error-after-soft-errors", Single("fn main() {\n    let a = 1\n    let b = 2\n    println(a, b);\n    let s = \"never closed;\n}\n")},
+	{"lexical-error-in-imported-module", Program{Entry: "main", Modules: map[string]string{
+		"main": "import { f } from lexlib;\nfn main() { f() }\n",
+		"lexlib": "pub fn f() {\n    let a = 1\n    let c = 'x\n    let b = 2 $ 3;\n}\nfn main() {}\n",
+	}}},
+	{"local-types", Single(`
+fn area() -> float {
+    type Rect = { w: float, h: float };
+    type Scale = float;
+    let r: Rect = new { w: 2.5, h: 4.3 };
+    let s: Scale = 2.0;
+    r.w * r.h * s
+}
+fn main() {
+    type Pair = { a: int, b: float };
+    type Id = int;
+    let p: Pair = new { a: 21, b: 70.7 };
+    let i: Id = 1;
+    println(p.a, p.b, i, area());
 }`)},
 	{"cast-two-wrong-fields", Single(`
 fn main() {
@@ -507,7 +541,7 @@ func c14Exec(t *testing.T, spec RunSpec, progs []c14Prog, backend int) (*simrt.R
 	res := simrt.Run(t, cfg, simSource(spec), func(s *simrt.Sim) {
 		s.SetDeadline("program-returns", 2*time.Hour)
 		for _, p := range progs {
-			out := &Out{}
+			out := &Out{CancelAt: spec.P("cancel_at_write", 0)}
 			c14Running = p.name
 			po := runProgram(p.prog, backend, NewProvider(p.prog.Modules), out)
 			s.Logf("program %s -> %s out=%d bytes", p.name, po.Outcome, len(po.Out))
@@ -519,14 +553,21 @@ func c14Exec(t *testing.T, spec RunSpec, progs []c14Prog, backend int) (*simrt.R
 }
 
 // c14Baseline: the sorted-order, default-schedule run of a program.
-func c14Baseline(t *testing.T, p c14Prog, backend int) *c14Base {
-	key := fmt.Sprintf("%s/%d", p.name, backend)
+func c14Baseline(t *testing.T, p c14Prog, backend int, cancelAt ...int) *c14Base {
+	ca := 0
+	if len(cancelAt) > 0 {
+		ca = cancelAt[0]
+	}
+	key := fmt.Sprintf("%s/%d/%d", p.name, backend, ca)
 	if b, ok := c14Bases[key]; ok {
 		return b
 	}
 	b := &c14Base{}
 	c14Bases[key] = b
 	spec := RunSpec{Property: "C14", Sim: c14SimParams(), Choices: &simrt.Sparse{}}
+	if ca > 0 {
+		spec.Params = map[string]int{"cancel_at_write": ca}
+	}
 	res, outs := c14Exec(t, spec, []c14Prog{p}, backend)
 	if res.Outcome == "crash" {
 		// a crash of the sorted-order run is that program's outcome: what matters here is
@@ -559,7 +600,10 @@ func runC14(t *testing.T, spec RunSpec) *Verdict {
 	}
 	p := c14Corpus[pi]
 	cell := p.name + "/" + []string{"vm", "interp"}[backend]
-	base := c14Baseline(t, p, backend)
+	base := c14Baseline(t, p, backend, spec.P("cancel_at_write", 0))
+	if ca := spec.P("cancel_at_write", 0); ca > 0 {
+		cell += fmt.Sprintf(":cancelled-in-write-%d", ca)
+	}
 	if base.skip != "" {
 		v.fail(P, "infra", "", "", cell+": "+base.skip)
 		return v
@@ -727,6 +771,24 @@ func planC14(t *testing.T, tier string, seed uint64) ([]RunSpec, error) {
 				s.Seed = runSeed(seed, idx)
 				idx++
 				plan = append(plan, s)
+			}
+			// the host cancels from inside a host call the program makes: how far the single-threaded
+			// program still gets must not depend on the schedule of anything else
+			if p.name == "print-loop-with-work" || p.name == "iterate-left-early" || p.name == "long-output-then-throw" {
+				for k := 0; k < n; k++ {
+					ca := []int{1, 2, 7, 30}[k%4]
+					if cb := c14Baseline(t, p, backend, ca); cb.skip != "" {
+						continue
+					}
+					s := RunSpec{Property: "C14", Workload: "c14/" + p.name + "/" + []string{"vm", "interp"}[backend] + "/cancel-in-host-call", Params: map[string]int{"prog": pi, "backend": backend, "cancel_at_write": ca}}
+					s.Sim = swarm(seed, idx)
+					s.Sim.StepCostNs = []int64{100, 2000, 50000}[k%3]
+					s.Sim.MapPerm = k%2 == 0
+					s.Sim.PPerm = 0.3
+					s.Seed = runSeed(seed, idx)
+					idx++
+					plan = append(plan, s)
+				}
 			}
 		}
 	}
